@@ -158,8 +158,11 @@ def expected(op, pat, names, quirk=None):
     return m
 
 
+_FROM = ["d"]
+
+
 def run_query(res, w, home, cond, trace=False):
-    q = "name from d where %s into list" % cond
+    q = "name from %s where %s into list" % (_FROM[0], cond)
     r = runner.run([q], cwd=w, home=home, trace=trace)
     res.ev()
     return q, r
@@ -199,10 +202,15 @@ def run_job(job):
         d = os.path.join(w, "d")
         os.mkdir(d)
         names = gen_names(rng, job["names"])
-        for nm in names:
-            with open(os.path.join(d, nm), "w"):
+        # every third job spreads the names over two search roots (one of them searched depth-first): matching is per entry
+        two = job.get("two_roots", False)
+        _FROM[0] = rng.choice(["d, e", "e dfs, d", "d, e dfs"]) if two else "d"
+        os.mkdir(os.path.join(w, "e"))
+        for k, nm in enumerate(names):
+            with open(os.path.join(w, "e" if two and k % 4 == 0 else "d", nm), "w"):
                 pass
-        names = sorted(os.listdir(d))
+        names = sorted(os.listdir(d) + os.listdir(os.path.join(w, "e")))
+        res.cover("from", _FROM[0])
         nameset = set(names)
         for qi in range(job["queries"]):
             pos = rng.choice(list(POS))
@@ -355,7 +363,7 @@ def run_job(job):
 def main(chk):
     quick = chk.tier == "quick"
     n = 800 if quick else 2400
-    jobs = [{"id": "d%d" % i, "seed": job_seed(chk.seed, "C12", i), "names": 28, "queries": 22 if quick else 50}
+    jobs = [{"id": "d%d" % i, "seed": job_seed(chk.seed, "C12", i), "names": 28, "queries": 22 if quick else 50, "two_roots": i % 3 == 2}
             for i in range(n)]
     chk.run_jobs(jobs, budget_s=300 if quick else 3000)
     return chk.finish(
